@@ -80,8 +80,8 @@ impl Property for C10 {
     }
     fn runs(&self, tier: Tier) -> u64 {
         match tier {
-            Tier::Quick => 1500,
-            Tier::Thorough => 12000,
+            Tier::Quick => 12000,
+            Tier::Thorough => 100000,
         }
     }
     fn rule(&self) -> &'static str {
